@@ -6,6 +6,10 @@ sites, closure certificate, witness paths); Poly/Props/C16.lean re-checks the ce
 the reachable sink sites are exactly the hand-written list `knownSites`. Every reachable site is reported under the
 key `C16:sink-reachable:<site>`; the eleven time.Now() reads of the header-sync handlers are known findings (F3),
 anything else is a VIOLATION.
+The same certificate carries two further sink kinds with their own exactness theorems: places that write process-wide
+state (assignment / element store / delete on, or a method call on, a package-level variable: keys
+`C16:process-global-state-written:<pkg.var> in <func>`; reviewed list knownGlobalSites) and `go` statements / multi-way
+selects (`C16:goroutine-in-contract-path:<func>`; none reachable).
 (a) dynamic: stream `determ` (hnative): every block — scripted-contract blocks of the C15 generator and blocks of real
 governance transactions (node_manager / side_chain_manager / relayer_manager methods that range over Go maps) — is
 executed k times on two ledgers with the same history (fresh stores), and ExecuteResult (write set, digest, cross
@@ -33,7 +37,7 @@ def static_part(ctx, facts):
     ctx.cov["callgraph"]["external_packages_note"] = ("bodies of these packages are not followed by the kernel-checked module graph "
                                                       "(quick tier: assumed free of clock/random reads that influence results); the "
                                                       "thorough tier follows them with a whole-program RTA call graph (deep_analysis)")
-    reach = [s for s in facts["sites"] if s["reachable"]]
+    reach = [s for s in facts["sites"] if s["reachable"] and s.get("kind", "clock") == "clock"]
     ctx.cov["callgraph"]["sink_sites_reachable"] = [{"key": s["key"], "pos": s["pos"], "entry": s.get("entry")} for s in reach]
     ctx.cov["evaluations"] += facts["edges_from_reachable"]
     ctx.cov["distinct_nontrivial"] += len(facts["entries"])
@@ -48,6 +52,42 @@ def static_part(ctx, facts):
                     {"kind": "call-path", "site": s["key"], "pos": s["pos"], "entry": s.get("entry"), "path": s["path"],
                      "how_to_reproduce": "cd extract/callgraph && go run . <repo> json | look for this site key"},
                     found_input=False)
+    # further sink kinds: process-wide state written, goroutines / multi-way selects. The reviewed lists are the Lean
+    # definitions knownGlobalSites / knownGoroutineSites of Props/C16.lean (single source of truth).
+    import re
+    import vcheck
+    src = open(os.path.join(vcheck.LEAN, "Poly", "Props", "C16.lean")).read()
+
+    def lean_list(name):
+        m = re.search(r"def %s : List String := \[(.*?)\]" % name, src, re.S)
+        return set(re.findall(r'"([^"]*)"', m.group(1))) if m else set()
+    known = {"global": lean_list("knownGlobalSites"), "goroutine": lean_list("knownGoroutineSites")}
+    other = {"global": [], "goroutine": []}
+    for s in facts["sites"]:
+        k = s.get("kind", "clock")
+        if k == "clock" or not s["reachable"]:
+            continue
+        other[k].append(s["key"])
+        if s["key"] in known[k]:
+            continue
+        func, what = s["key"].split("->", 1)
+        what = what.split("#")[0]
+        if k == "global":
+            var = what.split(":", 1)[1]
+            ctx.violate("C16:process-global-state-written:%s in %s" % (var, func),
+                        "%s at %s (reachable from %s) %s the package-level variable %s: state that outlives the transaction and "
+                        "the block, so the result of executing a block can depend on what this process executed before"
+                        % (func, s["pos"], s.get("entry"), "writes" if what.startswith("write:") else "calls a method on", var),
+                        {"kind": "call-path", "site": s["key"], "pos": s["pos"], "path": s["path"]}, found_input=False)
+        else:
+            ctx.violate("C16:goroutine-in-contract-path:%s" % func,
+                        "%s at %s (reachable from %s) contains a `%s`: the result can depend on scheduling"
+                        % (func, s["pos"], s.get("entry"), what),
+                        {"kind": "call-path", "site": s["key"], "pos": s["pos"], "path": s["path"]}, found_input=False)
+    ctx.cov["callgraph"]["global_state_sites_reachable"] = sorted(other["global"])
+    ctx.cov["callgraph"]["goroutine_sites_reachable"] = sorted(other["goroutine"])
+    ctx.cov["callgraph"]["sites_by_kind_total"] = {k: len([s for s in facts["sites"] if s.get("kind", "clock") == k])
+                                                   for k in ("clock", "global", "goroutine")}
     return reach
 
 
